@@ -29,6 +29,7 @@ def check(run):
     run.assumptions += ['R-frame (DESIGN.md §2.5): if every call writes only caller-owned / fresh objects and reads only its arguments and immutable tables, results are functions of the arguments alone after any history',
                         'Engine B frame obligations: every encoded function is evaluated from ARBITRARY table contents and shown to read no mutable static and write no static storage',
                         'XRayInit has an empty body (checked by the scan: no store, no call)']
-    mods = ['c01', 'c02', 'c05', 'c08', 'c06', 'c12'] + (['c09', 'c10', 'c11', 'c13'] if run.tier == 'thorough' else ['c10'])
-    frame.sweep(run, 'C16', keep=lambda oid: oid.endswith('/side') or oid.endswith('assemble/locale'), modules=mods + ['c07'])
+    mods = ['c01', 'c02', 'c05', 'c08', 'c06', 'c12'] + (['c09', 'c10', 'c11', 'c13'] if run.tier == 'thorough' else ['c10', 'c13'])
+    # value obligations of the structure factor (per-element scratch arrays on the stack): 'the result is this function of the arguments and tables' is the purity statement itself
+    frame.sweep(run, 'C16', keep=lambda oid: oid.endswith('/side') or oid.endswith('assemble/locale') or '/F/n1/value/' in oid, modules=mods + ['c07'])
     scan(run, 'C16')
